@@ -182,4 +182,63 @@ def renderW (bs : List Bytes) (e : Expr) : Bytes := detokW (rtoks e) bs
 /-- the abbreviated text (`atoks`) with the blank strings `bs` after its tokens -/
 def renderAW (bs : List Bytes) (e : Expr) : Bytes := detokW (atoks e) bs
 
+/-! ### free spacing: every blank that the tokenizer does not need may be left out
+
+`detokG ts bs`: the `i`-th token is followed by the `i`-th string of `bs` (nothing where `bs` is too short, nothing after an
+axis name and `::`).  `Spacing ts bs more`: every string of `bs` consists of white-space bytes, and where it is EMPTY the byte
+that follows the token is one the tokenizer separates from it anyway (`followOk`, REC §3.7 longest-token rule as libyang
+implements it): after a name, a function / node-type name and the operator names `or and div mod` one of
+`( ) [ ] / | = ! < > + * , @ ' " $`; after a Number and after `.` one of these or `-`; after `/` not `/`; after `<` `>` not `=`;
+after every other token anything (`a/b[1]`, `f(x)`, `1+2`, `a -b` but not `a-b`, `a or b`). -/
+
+def punct : List UInt8 := [0x28, 0x29, 0x5b, 0x5d, 0x2f, 0x7c, 0x3d, 0x21, 0x3c, 0x3e, 0x2b, 0x2a, 0x2c, 0x40, 0x27, 0x22, 0x24]
+
+def isNameTok (t : PT) : Bool :=
+  t.1 == .nametest || t.1 == .funcname || t.1 == .nodetype || t.1 == .operLog || (t.1 == .operMath && t.2.length == 3)
+
+def followOk (t : PT) (nxt : Bytes) : Bool :=
+  match nxt with
+  | [] => true
+  | c :: _ =>
+    if isNameTok t then (Path.isWs c || punct.contains c) && (nxt.drop (wsLen nxt)).head? != some 0x3a
+    else if t.1 == .number || t.1 == .dot then Path.isWs c || punct.contains c || c == 0x2d
+    else if t.1 == .operPath then c != 0x2f
+    else if t.1 == .operComp && t.2.length == 1 then c != 0x3d
+    else true
+
+def detokG : List PT → List Bytes → Bytes
+  | [], _ => []
+  | t :: ts, bs => tokTextW t (bs.headD []) ++ detokG ts bs.tail
+
+def Spacing : List PT → List Bytes → Bytes → Prop
+  | [], _, _ => True
+  | t :: ts, bs, more =>
+    (∀ c ∈ bs.headD [], Path.isWs c = true) ∧
+    (t.1 == .axisname || t.1 == .dcolon || followOk t (bs.headD [] ++ (detokG ts bs.tail ++ more))) = true ∧
+    Spacing ts bs.tail more
+
+/-- `Spacing` as a computation -/
+def spacingB : List PT → List Bytes → Bytes → Bool
+  | [], _, _ => true
+  | t :: ts, bs, more =>
+    (bs.headD []).all Path.isWs &&
+    (t.1 == .axisname || t.1 == .dcolon || followOk t (bs.headD [] ++ (detokG ts bs.tail ++ more))) &&
+    spacingB ts bs.tail more
+
+/-- the fewest blanks: one space exactly where `followOk` demands a separation -/
+def tightBs : List PT → List Bytes
+  | [] => []
+  | t :: ts =>
+    let r := tightBs ts
+    (if t.1 == .axisname || t.1 == .dcolon || followOk t (detokG ts r) then [] else [0x20]) :: r
+
+/-- the abbreviated text of `e` with the blanks `bs` -/
+def renderG (bs : List Bytes) (e : Expr) : Bytes := detokG (atoks e) bs
+
+/-- the TIGHT text: abbreviated syntax, no blank that can be left out — the form YANG modules use (`../a/b[k='x']`,
+`count(a)>1`).  The spacing `tightBs` is checked with `spacingB` and the single-blank text is the fallback; the fallback is
+never taken on the expressions the check generates (compared on every run) -/
+def renderT (e : Expr) : Bytes :=
+  if spacingB (atoks e) (tightBs (atoks e)) [] then renderG (tightBs (atoks e)) e else renderAW [] e
+
 end LyModel.XPath.Render
